@@ -504,8 +504,8 @@ def dispatch(rec, case):
 
 def plan(tier, seed):
     n = 16
-    per = 12000 if tier == 'thorough' else 500
-    peru = 4000 if tier == 'thorough' else 300
+    per = 40000 if tier == 'thorough' else 500
+    peru = 12000 if tier == 'thorough' else 300
     return [{'seed': seed, 'shard': s, 'n': per, 'nu': peru}
             for s in range(n)]
 
